@@ -166,8 +166,9 @@ theorem runOK_noargs {sg : Int × Int} {a1 a3 a4 : List Arg} {nx : List Tok}
   · rw [if_neg hneg] at h
     by_cases hpos : (decide (0 ≤ sg.1) && decide (0 ≤ sg.2)) = true
     · rw [if_pos hpos] at h
-      simp only [Bool.and_eq_true, List.isEmpty_iff] at h
-      exact ⟨h.1.1.1.1, h.1.1.1.2⟩
+      simp only [Bool.and_eq_true, List.isEmpty_iff, Bool.or_eq_true, List.isEmpty_nil, Bool.not_true,
+        Bool.false_eq_true, or_false] at h
+      exact ⟨h.1.1.1.2, h.1.1.1.1.1⟩
     · rw [if_neg hpos] at h; cases h
 
 theorem runOK_noargs_open {sg : Int × Int} {a1 a3 a4 : List Arg} {nx : List Tok}
